@@ -336,6 +336,22 @@ def install() -> dict[str, list[str]]:
             setattr(mod, attr, repl)
             _installed.append((mod, attr, val))
             _inventory.setdefault(_kind(val), []).append(f"{name}.{attr}")
+    # pynenc's wait loops spin without sleeping (ThreadRunner._waiting_for_results
+    # returns at once; on the in-memory stack not even the clock is read): under
+    # the GIL such a loop is pre-empted, here it must hand the baton back.
+    from pynenc.runner.base_runner import BaseRunner
+
+    orig_wait = BaseRunner.waiting_for_results
+
+    def waiting_for_results(self: Any, *a: Any, **k: Any) -> Any:
+        sim = core.CURRENT
+        if sim is not None:
+            sim.spin_point()
+        return orig_wait(self, *a, **k)
+
+    waiting_for_results.__wrapped__ = orig_wait  # type: ignore[attr-defined]
+    BaseRunner.waiting_for_results = waiting_for_results  # type: ignore[method-assign]
+    _installed.append((BaseRunner, "waiting_for_results", orig_wait))
     # objects created at import time
     from pynenc.state_backend.mem_state_backend import MemStateBackend
 
